@@ -301,7 +301,7 @@ fn history_unit(max_inj: usize, main_len: usize) -> Unit {
                 }
                 Next::Continue(Act::Step)
             });
-            if !finished && !ctx.stop && ctx.st.violations_total == 0 {
+            if !finished && !ctx.stop && ctx.st.violations_total == 0 && !ctx.panic_only {
                 ctx.st.violations_total += 1;
                 if ctx.st.violations.len() < crate::hv::e1::MAX_VIOLATIONS_KEPT {
                     ctx.st.violations.push(crate::hv::e1::Violation { engine: "e1".into(), unit: ctx.unit.clone(), what: "generated history did not complete within the action bound".into(), case: init.to_json(), expected: json!(null), actual: json!(null) });
